@@ -266,6 +266,19 @@ RecountAFPText(rec, ctx) ==
          /\ \A a \in 1..Len(v) :
               /\ IsNum(v[a]) /\ InWindow(v[a])
               /\ Abs(Micro(v[a]) * sp - TextSum(rec, "ACP", a)) <= 501 * sp + 500 * NSamp(rec)
+(* INFO/AFP against the samples' own printed AFP: the population frequency is the ploidy-      *)
+(* weighted mean of the sample frequencies, sum_s ploidy[s] AFP[s][a] / sum_s ploidy[s],        *)
+(* whatever part of the genotypes is reported as unknown (AN plays no role in it)               *)
+AfpFromSampleAfpText(rec, ctx) ==
+  (HasInfo(rec, "AFP") /\ TextUsable(rec, "AFP") /\ PloidySum(ctx) > 0 /\ Len(ctx.ploidy) = NSamp(rec)
+     /\ \A s \in 1..NSamp(rec) : ~AllDots(SampleVal(rec, s, "AFP"))) =>
+    LET v == Info(rec, "AFP").v
+        sp == PloidySum(ctx) IN
+    /\ Len(v) = NAlt(rec) + 1
+    /\ \A a \in 1..Len(v) :
+         /\ IsNum(v[a]) /\ InWindow(v[a])
+         /\ Abs(Micro(v[a]) * sp - SumSeq([s \in 1..NSamp(rec) |-> ctx.ploidy[s] * Micro(SampleVal(rec, s, "AFP")[a])]))
+              <= 501 * sp + 500 * sp
 
 (* ---- 9. printed values are the internal values rounded to 3 decimals ----- *)
 MatchVal(t, iv) ==
@@ -294,7 +307,7 @@ RoundedGT(rec, ctx) == ctx.igt # <<>> => rec.gts = ctx.igt
 ClauseNames == << "Columns", "KeysDeclared", "InfoCard", "FormatCard", "TypeLexical", "Decimals",
                   "GTShape", "RefIsReference", "SnvPosOK", "AltsFromSnvs",
                   "RecountAC", "RecountAN", "RecountUAN", "RecountNS", "RecountDP", "RecountRCOUNT",
-                  "RecountACP", "RecountAFP", "RecountACPText", "RecountAFPText",
+                  "RecountACP", "RecountAFP", "RecountACPText", "RecountAFPText", "AfpFromSampleAfpText",
                   "RoundedInfo", "RoundedFormat", "RoundedGT" >>
 
 Holds(c, hdr, rec, ctx) ==
@@ -318,6 +331,7 @@ Holds(c, hdr, rec, ctx) ==
     [] c = "RecountAFP" -> RecountAFP(rec, ctx)
     [] c = "RecountACPText" -> RecountACPText(rec)
     [] c = "RecountAFPText" -> RecountAFPText(rec, ctx)
+    [] c = "AfpFromSampleAfpText" -> AfpFromSampleAfpText(rec, ctx)
     [] c = "RoundedInfo" -> RoundedInfo(rec, ctx)
     [] c = "RoundedFormat" -> RoundedFormat(rec, ctx)
     [] c = "RoundedGT" -> RoundedGT(rec, ctx)
